@@ -541,6 +541,46 @@ def rule_condition(ctx: Ctx):
 
 
 
+def rule_single_noise_applied(ctx: Ctx) -> None:
+    """noise.single-applied: for every one-qubit operation class (Identity included: idle noise sits on identities, and wrapper-level noise
+    is carried by one) the branch of _apply_additional_noise that the class reaches first applies `op.noise` on the operation's own qubit,
+    q_index(op.register, op.reg_type).  A branch placed in front that swallows some one-qubit classes drops their noise in that backend
+    only, so the two backends simulate different channels."""
+    repo = ctx.repo
+    one = repo.cls("OneQubitOperationBase", OPS)
+    classes = [c for c in repo.subclasses(one) if c.module.rel == OPS and c.name not in ("OneQubitGateWrapper",)]
+    if len(classes) < 6:
+        raise AnalysisError("noise.single-applied: one-qubit operation classes not found")
+    for rel, cname in COMPILERS:
+        m = repo.module(rel)
+        fn = repo.anchor(rel, f"{cname}._apply_additional_noise")
+        ctx.touch(m, fn)
+        ps = func_params(fn)[1:]
+        on, qn = ps[1], ps[3]
+        chain = flat_chain(repo, m, fn, on)
+        dropped = []
+        for c in classes:
+            b = reach(repo, chain, c)
+            ok = False
+            if b is not None and not b.raises:
+                for call in [x for st in b.body for x in ast.walk(st) if isinstance(x, ast.Call)]:
+                    if call_attr(call) == "apply" and norm(call.func.value) == f"{on}.noise":
+                        for a in ast.walk(call):
+                            if isinstance(a, ast.Call) and isinstance(a.func, ast.Name) and a.func.id == qn and qindex_role(a, on) == ("register", "reg_type"):
+                                ok = True
+            if not ok:
+                dropped.append((c.name, b))
+        if dropped:
+            names = sorted(n_ for n_, _ in dropped)
+            b0 = dropped[0][1]
+            ctx.fail("noise.single-applied", m, b0.node if b0 is not None else fn,
+                     f"{cname}._apply_additional_noise does not apply `{on}.noise` on the operation's qubit for {names}: their first matching branch is "
+                     f"`{short(b0.test) if b0 is not None and b0.test is not None else 'else'}`; noise attached to such an operation is dropped by this backend only",
+                     func=f"{cname}._apply_additional_noise", construct=f"{cname}: one-qubit noise dropped for {names[:3]}")
+        else:
+            ctx.ok("noise.single-applied", m, fn, what=f"{cname}: {len(classes)} one-qubit classes reach the branch that applies op.noise on their qubit")
+
+
 def rule_pair_noise_applied(ctx: Ctx) -> None:
     """noise.both-applied: for a controlled pair, _apply_additional_noise applies the control's noise on the control qubit and
     the target's noise on the target qubit on every path (an early exit after one of them drops the other)."""
